@@ -745,6 +745,22 @@ func Run1(t *testing.T, c Case) (res Result) {
 			}, func(n *lab.Node, col *collector, a *pager.Conn, img *oracle.Image) (*oracle.Image, error) {
 				return img, n.Store.Recover(context.Background())
 			})
+		case "H16-leave-wal":
+			// PRAGMA journal_mode=DELETE|TRUNCATE|PERSIST on a WAL database: the log is checkpointed and unlinked, then
+			// page 1 is rewritten through a rollback journal. Variant: the finalisation mode of that journal.
+			e.single(t, true, func(n *lab.Node, a *pager.Conn, img *oracle.Image) *oracle.Image {
+				w := a.RunWTx(pager.WTx{Frames: []uint32{1, 2, s + 1}, Outcome: "commit"}, img)
+				if w.Err != nil || !w.Committed {
+					e.res.Harness = fmt.Sprintf("prep wtx: %v at %s", w.Err, w.ErrStep)
+					return nil
+				}
+				return w.Intended
+			}, func(n *lab.Node, col *collector, a *pager.Conn, img *oracle.Image) (*oracle.Image, error) {
+				if err := a.LeaveWAL(); err != nil {
+					return nil, err
+				}
+				return rtxOp(pager.RTx{FromWAL: true, Final: fin, Outcome: "commit"})(n, col, a, img)
+			})
 		case "H12-drop":
 			// Variant/2 selects what lies next to the database file when it is dropped: 0 nothing more than the set-up
 			// leaves; 1 a finalised journal kept by PERSIST mode / a log emptied by a TRUNCATE checkpoint; 2 a journal
@@ -947,7 +963,7 @@ func RunAll(run *vlib.Run, only func(h string) bool) map[string]any {
 	}{
 		{"H1-first-tx", 6}, {"H2-grow", 3}, {"H3-shrink", 3}, {"H4-multi-segment", 3}, {"H4b-segment-ends-on-sector-boundary", 1}, {"H5-rollback-after-spill", 3},
 		{"H6-wal-fresh", 3}, {"H7-wal-after-restart", 2}, {"H7b-wal-second-tx", 2}, {"H8-sqlite-checkpoint", 4}, {"H8b-wal-tx-after-checkpoint", 2}, {"H9-litefs-recover", 2},
-		{"H12-drop", 6}, {"H14-import", 4}, {"H10-replica-incremental", 2}, {"H10w-replica-incremental-wal", 2}, {"H11-replica-snapshot", 2}, {"H11b-replica-resnapshot", 2}, {"H11c-replica-fork-resnapshot", 4}, {"H15-restore-from-backup", 2}, {"H13-replica-tombstone", 2},
+		{"H12-drop", 6}, {"H16-leave-wal", 3}, {"H14-import", 4}, {"H10-replica-incremental", 2}, {"H10w-replica-incremental-wal", 2}, {"H11-replica-snapshot", 2}, {"H11b-replica-resnapshot", 2}, {"H11c-replica-fork-resnapshot", 4}, {"H15-restore-from-backup", 2}, {"H13-replica-tombstone", 2},
 	}
 	type geo struct {
 		ps    int
